@@ -33,6 +33,9 @@ func runC11(c *Ctx) {
 	r := c.R
 	const om = "ds/orderedmap"
 	const sm = "ds/shrinkingmap"
+	// Head reads the head entry only, Tail the tail entry only
+	checkEndAccessor(r, p, om, "OrderedMap", "Head", ".tail", "Head reports key and value of the first entry")
+	checkEndAccessor(r, p, om, "OrderedMap", "Tail", ".head", "Tail reports key and value of the last entry (with o.head it pairs the last key with the first value)")
 	// (1)
 	checkGuards(r, p, "lock/guarded-by", []GuardRow{
 		{Pkg: om, Type: "OrderedMap", Mutex: "mutex", Fields: []string{"head", "tail", "size", "dictionary"}},
